@@ -6,6 +6,7 @@ open SwayVerif.C10
 #print axioms C10_decode_partial
 #print axioms C10_invalid_reverts
 #print axioms C10_fastpath_encode_partial
+#print axioms C10_decoder_validates
 #print axioms C10_prop_of_model
 #print axioms C10_trivialEnum_counterexample
 #print axioms C10_trivialEnum_decode_counterexample
